@@ -45,7 +45,7 @@ fn read_all(info: &[u8], abbrev: &[u8], fresh: bool) -> Result<Vec<String>, Stri
     }
 }
 
-pub fn subs(_tier: Tier) -> Vec<Sub> {
+pub fn subs(tier: Tier) -> Vec<Sub> {
     let mut cfgs: Vec<(Vec<usize>, Variant)> = vec![];
     for n in 1..=5usize {
         for t in trees(n) {
@@ -58,7 +58,7 @@ pub fn subs(_tier: Tier) -> Vec<Sub> {
         }
     }
     let n = cfgs.len() as u64;
-    vec![units_sub(), Sub::new(
+    vec![units_sub(tier), Sub::new(
         "convert-entry-buffer",
         n,
         "every ordered tree with <= 5 nodes x {plain, DW_AT_sibling on inner nodes only, leaves declared with children, invalid abbreviation code at node k, two more entries (a leaf; an entry with a child) after the null that ends the root's children}: all entries of the unit read with ConvertUnit::read_entry into ONE ConvertUnitEntry (the documented conversion loop) vs into a new null entry each time; offset, tag, children flag, sibling flag, parent, reservation and attributes of every entry must agree",
@@ -214,13 +214,14 @@ fn convert_units(info: &[u8], abbrev: &[u8]) -> Result<Vec<String>, String> {
     Ok(v)
 }
 
-fn units_sub() -> Sub {
+fn units_sub(tier: Tier) -> Sub {
     let n = UNIT_NAMES.len() as u64;
-    let total = n + n * n + n * n * n;
+    let maxlen = tier.pick(3u32, 4u32);
+    let total: u64 = (1..=maxlen).map(|l| n.pow(l)).sum();
     Sub::new(
-        "convert-units-after-each-other",
+        &format!("convert-units-after-each-other-len<={}", maxlen),
         total,
-        "every sequence of 1..=3 version 5 units over a pool of 6 (compile units with nested, with flat and without children, a skeleton unit, a partial unit, a split-compile unit) in one .debug_info, converted by ONE write::Dwarf::from (one converter, its per-unit scratch state reused), written and read back: the k-th unit equals what converting that unit alone gives",
+        "every sequence of 1..=3 (thorough: 4) version 5 units over a pool of 6 (compile units with nested, with flat and without children, a skeleton unit, a partial unit, a split-compile unit) in one .debug_info, converted by ONE write::Dwarf::from (one converter, its per-unit scratch state reused), written and read back: the k-th unit equals what converting that unit alone gives",
         move |ctx: &mut Ctx, i| {
             let mut ks = vec![];
             let mut r = i;
